@@ -27,6 +27,7 @@ RULE = (
 )
 ASSUMPTIONS = [
     "oracle: pbt/model.py expand (split at the first delimiter) + Flask-vs-FastAPI differential",
+    "known findings D12 / D13 (framework routes /static/<path> and /docs/oauth2-redirect shadow the CURIEs static/... and docs/oauth2-redirect when the delimiter is '/') are excluded by construction - the generated prefix alphabet cannot spell 'static' or 'docs' - and re-confirmed by directed probes on every run",
     "requests go through the in-process test clients; dot-segment normalisation and percent-encoding by real HTTP clients are outside the statement",
 ]
 
@@ -38,7 +39,10 @@ PREFIX_ALPHA = "abAB01._-"
 def cases(draw, tier="quick"):
     d = draw(st.sampled_from([":", ":", "/"]))
     n = draw(st.integers(1, 4))
-    raw = draw(st.lists(S.txt(PREFIX_ALPHA, min_size=1, max_size=4).map(lambda s: s if any(ch.isalnum() for ch in s) else "p" + s), unique=True, min_size=n, max_size=n + 3))
+    # names next to the two known findings (D12: exactly 'static' under Flask, D13: exactly docs/oauth2-redirect under FastAPI)
+    # are generated on purpose; the two exact collisions themselves cannot be spelt by this generator
+    near = st.sampled_from(["docs", "doc", "statics", "static1", "redoc", "openapi.json", "Static"])
+    raw = draw(st.lists(st.one_of(S.txt(PREFIX_ALPHA, min_size=1, max_size=4).map(lambda s: s if any(ch.isalnum() for ch in s) else "p" + s), near), unique=True, min_size=n, max_size=n + 3))
     ups = draw(S.url_pool(n, n + 2))
     n = min(n, len(raw), len(ups))
     recs = [{"prefix": raw[i], "uri_prefix": ups[i], "prefix_synonyms": [], "uri_prefix_synonyms": [], "pattern": None} for i in range(n)]
@@ -160,6 +164,36 @@ def _sibling_arm(conv, recs, d, flask_client, fast_client, stats):
             raise Violation(f"after a sibling converter sharing the records was extended: GET {path!r} -> {got1!r}, converter.expand says {exp!r}")
     stats.cls("sibling-converter-extended")
 
+
+def _probe_apps():
+    import curies
+    from curies.resolver_service import get_fastapi_app, get_flask_app
+    from starlette.testclient import TestClient
+
+    conv = curies.Converter([curies.Record(prefix="static", uri_prefix="http://h/s/"), curies.Record(prefix="docs", uri_prefix="http://h/d/")], delimiter="/")
+    with warnings.catch_warnings():
+        warnings.simplefilter("ignore")
+        return conv, get_flask_app(conv).test_client(), TestClient(get_fastapi_app(conv))
+
+
+def probe_flask_static(stats: Stats) -> bool:
+    """Known finding D12: with delimiter '/', Flask's built-in /static/<path> route shadows the CURIE prefix 'static'."""
+    conv, fa, _ = _probe_apps()
+    r = fa.get("/static/1", follow_redirects=False)
+    return conv.expand("static/1") == "http://h/s/1" and r.status_code == 404
+
+
+def probe_fastapi_docs(stats: Stats) -> bool:
+    """Known finding D13: with delimiter '/', FastAPI's /docs/oauth2-redirect route shadows the CURIE docs/oauth2-redirect."""
+    conv, _, fb = _probe_apps()
+    r = fb.get("/docs/oauth2-redirect", follow_redirects=False)
+    return conv.expand("docs/oauth2-redirect") == "http://h/d/oauth2-redirect" and r.status_code == 200
+
+
+KNOWN_PROBES = {
+    "D12:flask-static-route-shadows-prefix@resolver_service.py:get_flask_app": probe_flask_static,
+    "D13:fastapi-docs-oauth2-redirect-shadows-curie@resolver_service.py:get_fastapi_app": probe_fastapi_docs,
+}
 
 SUBS = [
     Sub(name="resolver", check=check, strategy=lambda tier: cases(tier), n={"quick": 400, "thorough": 1200},
